@@ -22,15 +22,35 @@ import (
 	"github.com/krotik/ecal/util"
 )
 
-func c18Break(src string, markoff int) string {
-	line := 1 + strings.Count(src[:markoff], "\n")
+func c18Break(src string, markoff int) string { return c18BreakMulti(src, []int{markoff}, "both") }
+
+// c18BreakMulti sets a break point at the true line of every marked offset, then (mode "dis" / "rm")
+// disables / removes the LAST one again through the debugger API, runs the program and collects the
+// node of every suspension (Continue with Resume in between). Expected: one suspension per active
+// break point, in source order, each on the marked token; "-" stands for the deactivated one.
+func c18BreakMulti(src string, offs []int, mode string) string {
+	lines := make([]int, len(offs))
+	for i, o := range offs {
+		lines[i] = 1 + strings.Count(src[:o], "\n")
+	}
 	vs := newGlobalScope()
 	erp := interpreter.NewECALRuntimeProvider("t", nil, &memLog{})
 	defer erp.Cron.Stop()
 	dbg := interpreter.NewECALDebugger(vs)
 	dbg.BreakOnError(false)
 	erp.Debugger = dbg
-	dbg.SetBreakPoint("t", line)
+	for _, l := range lines {
+		dbg.SetBreakPoint("t", l)
+	}
+	active := len(lines)
+	switch mode {
+	case "dis":
+		dbg.DisableBreakPoint("t", lines[len(lines)-1])
+		active--
+	case "rm":
+		dbg.RemoveBreakPoint("t", lines[len(lines)-1])
+		active--
+	}
 	ast, err := parser.ParseWithRuntime("t", src, erp)
 	if err == nil {
 		err = ast.Runtime.Validate()
@@ -49,33 +69,56 @@ func c18Break(src string, markoff int) string {
 		_, err := ast.Runtime.Eval(vs, make(map[string]interface{}), tid)
 		done <- err
 	}()
-	deadline := time.Now().Add(3 * time.Second)
+	var hits []string
+	finish := func(extra string) string {
+		for len(hits) < len(lines) {
+			hits = append(hits, "-")
+		}
+		return strings.TrimSpace(strings.Join(hits, " ") + " " + extra)
+	}
+	deadline := time.Now().Add(4 * time.Second)
 	for time.Now().Before(deadline) {
 		select {
 		case err := <-done:
 			if err != nil {
-				return "FINISHED-WITH-ERROR " + oneLine(err.Error())
+				return finish("FINISHED-WITH-ERROR " + oneLine(err.Error()))
 			}
-			return "NOT-SUSPENDED"
+			if len(hits) < active {
+				return finish("NOT-SUSPENDED")
+			}
+			return finish("")
 		default:
 		}
 		if d, ok := dbg.Describe(tid).(map[string]interface{}); ok && d != nil {
 			if running, ok := d["threadRunning"].(bool); ok && !running {
 				node, _ := d["node"].(map[string]interface{})
-				res := fmt.Sprintf("%v,%v", node["pos"], node["line"])
-				dbg.RemoveBreakPoint("t", line)
-				dbg.Continue(tid, util.Resume)
-				select {
-				case <-done:
-				case <-time.After(3 * time.Second):
-					return res + " STUCK-AFTER-CONTINUE"
+				hit := fmt.Sprintf("%v,%v", node["pos"], node["line"])
+				if len(hits) >= active {
+					hits = append(hits, "EXTRA:"+hit)
+				} else {
+					hits = append(hits, hit)
 				}
-				return res
+				dbg.Continue(tid, util.Resume)
+				// wait until the thread runs again (or is gone) before looking for the next suspension
+				for k := 0; k < 20000; k++ {
+					d2, _ := dbg.Describe(tid).(map[string]interface{})
+					if d2 == nil {
+						break
+					}
+					if r2, ok := d2["threadRunning"].(bool); !ok || r2 {
+						break
+					}
+					time.Sleep(50 * time.Microsecond)
+				}
+				if len(hits) > len(lines)+2 {
+					return finish("TOO-MANY-SUSPENSIONS")
+				}
+				continue
 			}
 		}
 		time.Sleep(200 * time.Microsecond)
 	}
-	return "TIMEOUT"
+	return finish("TIMEOUT")
 }
 
 // marked statements: text and the offset (inside it) of the token whose node is evaluated first
@@ -88,6 +131,9 @@ var c18Marks = []struct {
 	{"log(\"a\",\n 7)", 0},
 	{"mk := [1,\n 2]", 3},
 	{"if mk == null {\n log(1)\n}", 0},
+	// a break point on a CONTINUATION line: the first node evaluated there
+	{"mk := [1,\n 2]", 11},
+	{"log(\"a\",\n\n 7)", 11},
 }
 
 var c18MarkLead = []string{"", "", " ", "\t", "  ", "/* c */ ", "/* l1\nl2 */ ", "/* é */", "/* a */ /* b\n\n */\t"}
@@ -115,8 +161,24 @@ func c18BreakGen(g *Gen, n int) {
 				sb.WriteString(g.R.Pick(c18Lines))
 			}
 		}
-		g.Count("break point")
-		g.Emit(fmt.Sprintf("B %s %d", hx(sb.String()), off))
+		if i%3 == 0 {
+			g.Count("break point")
+			g.Emit(fmt.Sprintf("B %s %d", hx(sb.String()), off))
+			continue
+		}
+		// a second marked statement further down; both / the second disabled / the second removed
+		if !strings.HasSuffix(sb.String(), "\n") {
+			sb.WriteString("\n")
+		}
+		sb.WriteString(strings.Repeat("\n", g.R.Intn(5)))
+		sb.WriteString(g.R.Pick(c18MarkLead))
+		mk2 := c18Marks[g.R.Intn(len(c18Marks))]
+		off2 := sb.Len() + mk2.off
+		sb.WriteString(mk2.text)
+		sb.WriteString(g.R.Pick([]string{"", "\n", " # c\n", "\nu := 3\n"}))
+		mode := []string{"both", "dis", "rm"}[g.R.Intn(3)]
+		g.Count("break point x2 " + mode)
+		g.Emit(fmt.Sprintf("B2 %s %d %d %s", hx(sb.String()), off, off2, mode))
 	}
 }
 
